@@ -228,7 +228,11 @@ class Space:
                         vals[r] = f(*[int(self._occ[r, c]) for c in cols])
                     except ZeroDivisionError:
                         vals[r] = np.nan
-                T = vals[:, None] * A
+                # (entry by entry: a pole of the coefficient at an occupation the amplitude never reaches must not turn
+                # the zeros of that row into nan)
+                T = np.zeros(A.shape, dtype=complex)
+                nz = A != 0
+                T[nz] = np.broadcast_to(vals[:, None], A.shape)[nz] * A[nz]
             else:
                 T = complex(coeff) * A
             for k, p in zip(reversed(idx), reversed(powers)):
